@@ -150,6 +150,29 @@ fn predict_simd(v: &[u64]) -> Strat {
     if mn == mx { return Strat::MinMax { w: 1 }; }
     let w = width(mx - mn); if w < 48 { Strat::MinMax { w } } else { Strat::Raw }
 }
+/// Selection as it is after the repairs of the small-dataset path and of the block samples (exact sorted test, exact delta width, MinMax
+/// instead of the fixed-width block fallback, absolute block samples). Used for the `strat:*` evidence notes only; tags keep the original model.
+fn predict_current(v: &[u64], elem: usize, ctor: Ctor) -> Strat {
+    let n = v.len(); if n == 0 { return Strat::Empty; }
+    if ctor == Ctor::Simd && (65..=2048).contains(&n) { return predict_simd(v); }
+    let exact_delta = |v: &[u64]| -> Strat { let mut maxd = 0u64; for i in 1..v.len() { match v[i].checked_sub(v[i - 1]) { Some(d) => maxd = maxd.max(d), None => return Strat::Raw } } if maxd > (1u64 << 32) { Strat::Raw } else { Strat::DeltaExact { w: width(maxd) } } };
+    if n <= 10000 || (n * elem) / 1024 <= 16 {
+        if n < 4 { return Strat::Raw; }
+        if v.windows(2).all(|p| p[0] <= p[1]) { if uniform_delta(v).is_some() { return Strat::DeltaUniform; } return exact_delta(v); }
+        let (mn, mx) = (*v.iter().min().unwrap(), *v.iter().max().unwrap());
+        return Strat::MinMax { w: if mn == mx { 1 } else { width(mx - mn) } };
+    }
+    let (mn, mx) = (*v.iter().min().unwrap(), *v.iter().max().unwrap());
+    let mm = Strat::MinMax { w: if mn == mx { 1 } else { width(mx - mn) } };
+    let dl = exact_delta(v);
+    let bs = if n >= 1024 { 128 } else { 64 }; let nb = (n + bs - 1) / bs;
+    let samples: Vec<u64> = (0..nb).map(|b| *v[b * bs..((b + 1) * bs).min(n)].iter().min().unwrap()).collect();
+    let mut maxo = 0u64; for (i, &x) in v.iter().enumerate() { maxo = maxo.max(x - samples[i / bs]); }
+    let bl = Strat::BlockOpt { bs, ow: width(maxo), sw: width(*samples.iter().max().unwrap()), min_nonzero: false };
+    let est = |s: &Strat| -> f64 { let orig = n * 8; let c = match *s { Strat::Raw => orig, Strat::MinMax { w } => ((n * w as usize + 7) / 8).max(32), Strat::DeltaExact { w } => 8 + ((n * w as usize + 7) / 8).max(32),
+        Strat::BlockOpt { bs, ow, sw, .. } => ((n + bs - 1) / bs) * sw as usize / 8 + (n * ow as usize + 7) / 8, _ => orig }; c as f64 / orig as f64 };
+    let mut best = mm; for s in [dl, bl] { if est(&s) < est(&best) { best = s; } } best
+}
 #[derive(Clone, Copy, PartialEq, Debug)]
 enum Ctor { FromSlice, Bulk, Simd }
 fn predict(v: &[u64], elem: usize, ctor: Ctor) -> Strat {
@@ -199,10 +222,14 @@ fn check_intvec<T: PackedInt>(c: &mut Case, ctor: Ctor, vals: &[T]) -> Res {
     ensure!(iv.is_empty() == (n == 0), "len", "is_empty()={} n={n}", iv.is_empty());
     // evidence: which strategy really ran (memory_usage = struct + data + index)
     let bytes = iv.memory_usage() - size_of::<IntVec<T>>();
-    if bytes == pred.bytes(n) { c.note(&format!("strat:{}", pred.name()), 1); } else { c.note(&format!("strat_unconfirmed:{}", pred.name()), 1); c.log(format!("bytes {bytes} predicted {} for {pred:?}", pred.bytes(n))); }
+    let pred2 = predict_current(&u, size_of::<T>(), ctor);
+    if bytes == pred.bytes(n) { c.note(&format!("strat:{}", pred.name()), 1); } else if bytes == pred2.bytes(n) { c.note(&format!("strat:{}", pred2.name()), 1); } else { c.note(&format!("strat_unconfirmed:{}", pred.name()), 1); c.log(format!("bytes {bytes} predicted {} for {pred:?}", pred.bytes(n))); }
     // delta reads are O(i): sample them on big inputs
     let delta = matches!(pred, Strat::DeltaSampled { .. } | Strat::DeltaExact { .. });
-    let idx: Vec<usize> = if delta && n > 3000 { let mut v: Vec<usize> = (0..300).chain(n - 300..n).collect(); let step = (n / 16).max(1); let mut k = step; while k < n { v.extend([k - 1, k, (k + 1).min(n - 1)]); k += step; } for _ in 0..400 { v.push(c.rng.usize_below(n)); } v.sort(); v.dedup(); v } else { (0..n).collect() };
+    let idx: Vec<usize> = if delta && n > 50_000 { // huge_* families: a delta read costs O(i); keep ~150 far reads
+            let mut v: Vec<usize> = (0..300).chain(n - 12..n).collect(); let step = (n / 16).max(1); let mut k = step; while k < n { v.extend([k - 1, k]); k += step; }
+            for b in [65535usize, 65536, 65537, 131071, 131072, 131073] { if b < n { v.push(b); } } for _ in 0..40 { v.push(c.rng.usize_below(n)); } for _ in 0..300 { v.push(c.rng.usize_below(20_000)); } v.sort(); v.dedup(); v }
+        else if delta && n > 3000 { let mut v: Vec<usize> = (0..300).chain(n - 300..n).collect(); let step = (n / 16).max(1); let mut k = step; while k < n { v.extend([k - 1, k, (k + 1).min(n - 1)]); k += step; } for _ in 0..400 { v.push(c.rng.usize_below(n)); } v.sort(); v.dedup(); v } else { (0..n).collect() };
     let mut cur = 0usize;
     let res = catch(|| { for &i in &idx { cur = i; let g = iv.get(i); if g != Some(vals[i]) { return Err(g); } } Ok(()) });
     match res {
@@ -489,13 +516,18 @@ fn suv_case(c: &mut Case, cfg: SortedUintVecConfig, kind: usize) -> Res {
     let bs = 1usize << cfg.log2_block_units;
     let n = match c.rng.below(4) { 0 => *c.rng.pick(&[0usize, 1, 2, bs - 1, bs, bs + 1, 2 * bs - 1, 2 * bs, 2 * bs + 1, 8 * bs, 8 * bs + 3]), 1 => c.rng.usize_below(3 * bs + 2), _ => c.rng.usize_below(2500) };
     let vals = gen_suv(&mut c.rng, &cfg, kind, n);
-    c.input_str("cfg", &format!("{cfg:?}")); c.input_str("kind", SUV_KINDS[kind]); c.input("vals_u64_le", &le_bytes(&vals));
+    suv_check(c, cfg, SUV_KINDS[kind], &vals)
+}
+/// build a SortedUintVec from `vals` (sorted) and run every read the container offers against the input
+fn suv_check(c: &mut Case, cfg: SortedUintVecConfig, kind_name: &str, vals: &[u64]) -> Res {
+    let bs = 1usize << cfg.log2_block_units; let n = vals.len();
+    c.input_str("cfg", &format!("{cfg:?}")); c.input_str("kind", kind_name); c.input("vals_u64_le", &le_bytes(vals));
     let nb = (n + bs - 1) / bs;
     if cfg.sample_width < 64 && (0..nb).any(|b| vals[b * bs] > mask_of(cfg.sample_width as u32)) { c.tag("block_base_exceeds_sample_width"); }
     if (58..64).contains(&cfg.sample_width) && (0..nb).any(|b| (b * cfg.sample_width as usize) % 8 + cfg.sample_width as usize > 64) { c.tag("sample_width_straddles_8_bytes"); }
     let fits = (0..n).all(|i| vals[i] - vals[i / bs * bs] <= mask_of(cfg.offset_width as u32));
     let use_extend = c.rng.bool();
-    let built = catch(|| -> zipora::Result<SortedUintVec> { let mut b = SortedUintVecBuilder::with_config(cfg); if use_extend { b.extend(vals.iter().copied())?; } else { for &x in &vals { b.push(x)?; } } b.finish() });
+    let built = catch(|| -> zipora::Result<SortedUintVec> { let mut b = SortedUintVecBuilder::with_config(cfg); if use_extend { b.extend(vals.iter().copied())?; } else { for &x in vals { b.push(x)?; } } b.finish() });
     let sv = match built { Ok(Ok(v)) => v,
         Ok(Err(e)) => { if fits { c.note("ctor_err_fitting_input", 1); } else { c.note("ctor_err_delta_overflow", 1); } c.log(format!("ctor err {e}")); c.set_nontrivial(false); return Ok(()); }
         Err(p) => return Err(bad(&p.class(), format!("builder n={n} cfg={cfg:?} panicked at {}: {}", p.loc, p.msg))) };
@@ -592,6 +624,214 @@ fn run_witnesses(ctx: &mut Ctx) {
         zip_check(c, &z, &[u32::MAX as u64; 4], "build_from_u32") });
 }
 
+// ---------------------------------------------------------------------------------------------------------------------
+// huge_* families: element counts above 2^16 / 10^5 / 2^20 that are not multiples of the block size, spikes in the trailing
+// partial block, deltas exactly at the width limits, one dominant value, growth past several resize steps. Same oracle
+// (the input slice); the O(i) delta reads and O(runs) RLE reads are sampled.
+// ---------------------------------------------------------------------------------------------------------------------
+const HUGE_LENS: &[usize] = &[65535, 65536, 65537, 65599, 100_001, 131071, 131072, 131073, 131074, 196609, 262145];
+const HUGE_LENS_XL: &[usize] = &[1048575, 1048576, 1048577];
+fn huge_len(r: &mut Rng, xl_one_in: u64) -> usize { if r.chance(1, xl_one_in) { *r.pick(HUGE_LENS_XL) } else { *r.pick(HUGE_LENS) } }
+/// make n a non-multiple of `bs` (adds 1..bs-1 when it is one)
+fn not_multiple(r: &mut Rng, n: usize, bs: usize) -> usize { if n % bs == 0 { n + 1 + r.usize_below(bs - 1) } else { n } }
+
+const HUGE_IV: &[&str] = &["huge_block_tail_spike", "huge_dominant", "huge_const", "huge_sorted_delta_limit", "huge_arith", "huge_range_exact"];
+fn gen_huge_iv(r: &mut Rng, fam: usize, n: usize, mask: u64, tbits: u32) -> Vec<u64> {
+    match fam {
+        0 => { // per-128-block clusters; a spike above every other in-block offset sits in the trailing partial block (n % 128 != 0)
+            let ob = 1 + r.below((tbits as u64 - 3).min(10)) as u32; let om = mask_of(ob); let bs = 128usize; let nb = (n + bs - 1) / bs;
+            let spike = (om + 1) << r.below(((tbits - ob - 1) as u64).min(4)); let sorted_bases = r.bool();
+            let mut bases: Vec<u64> = (0..nb).map(|_| r.below(mask - spike - om)).collect(); if sorted_bases { bases.sort(); } if r.bool() { let z = r.usize_below(nb); bases[z] = 0; }
+            let mut v: Vec<u64> = (0..n).map(|i| bases[i / bs] + r.below(om + 1)).collect();
+            let tail0 = (nb - 1) * bs; let at = if r.bool() { n - 1 } else { tail0 + r.usize_below(n - tail0) };
+            v[tail0] = bases[nb - 1]; if at == tail0 && n - tail0 > 1 { v[n - 1] = bases[nb - 1] + spike + r.below(om + 1); } else if at != tail0 { v[at] = bases[nb - 1] + spike + r.below(om + 1); }
+            v }
+        1 => { let d = r.next() & mask; let pct = 60 + r.below(40); (0..n).map(|_| if r.below(100) < pct { d } else { r.next() & mask }).collect() }
+        2 => { let c = match r.below(4) { 0 => 0, 1 => mask, 2 => (mask >> 1) + 1, _ => r.next() & mask }; vec![c; n] }
+        3 => { // sorted, tiny deltas; one delta exactly at a width limit placed at the very end (or within the last 100 elements)
+            let d = (*r.pick(&[(1u64 << 16) - 1, 1 << 16, (1 << 16) + 1, (1 << 32) - 1, 1 << 32, (1 << 32) + 1, 255, 256])).min(mask / 2);
+            let room = mask - d; let start = if r.bool() { 0 } else { r.below(room / 2 + 1) }; let at = if r.bool() { n - 1 } else { n - 1 - r.usize_below(100) };
+            let mut cur = start; let mut v = Vec::with_capacity(n); let budget = (room - start).min(n as u64);
+            for i in 0..n { if i == at { cur += d; } else if i > 0 && cur - start - if i > at { d } else { 0 } < budget && r.chance(budget, n as u64) { cur += 1; } v.push(cur); }
+            v }
+        4 => { let dmax = mask / n as u64; let d = (*r.pick(&[1u64, 2, 3, 255, 65536, u64::MAX])).min(dmax); let span = d * (n as u64 - 1); let base = match r.below(3) { 0 => 0, 1 => mask - span, _ => r.below(mask - span + 1) };
+            (0..n).map(|i| base + d * i as u64).collect() }
+        _ => { // range of exactly 2^k - 1 or 2^k; the extremes are the last two elements
+            let k = (*r.pick(&[7u32, 8, 15, 16, 17, 31, 32, 33, 47, 48, 57, 58, 59, 61, 63])).min(tbits - 1); let span = if r.bool() { mask_of(k) } else { (1u64 << k).min(mask) };
+            let min = if r.chance(1, 3) { 0 } else { r.below(mask - span + 1) };
+            let mut v: Vec<u64> = (0..n).map(|_| min + if span == u64::MAX { r.next() } else { r.below(span + 1) }).collect(); v[n - 2] = min; v[n - 1] = min + span; v }
+    }
+}
+fn run_huge_intvec<T: PackedInt>(ctx: &mut Ctx, tn: &str, tbits: u32) {
+    let mask = mask_of(tbits);
+    for (ctor, cn, fams, per) in [(Ctor::FromSlice, "from_slice", &[0usize, 1, 2, 3, 4, 5][..], ctx.n(3, 24)), (Ctor::Simd, "simd", &[0, 3][..], ctx.n(2, 8)), (Ctor::Bulk, "bulk", &[1, 5][..], ctx.n(2, 8))] {
+        let target = format!("iv_{tn}/{cn}");
+        for &fam in fams { for idx in 0..per as u64 {
+            ctx.case(&target, HUGE_IV[fam], idx, |c| {
+                let mut n = huge_len(&mut c.rng, if ctor == Ctor::FromSlice { 6 } else { 20 }); if fam == 0 { n = not_multiple(&mut c.rng, n, 128); }
+                let raw = gen_huge_iv(&mut c.rng, fam, n, mask, tbits);
+                let vals: Vec<T> = raw.iter().map(|&x| T::from_u64(x)).collect();
+                c.input_str("kind", HUGE_IV[fam]); c.input_str("len", &n.to_string()); c.input("vals_u64_le", &le_bytes(&raw)); c.note("huge_elems", n as u64);
+                check_intvec::<T>(c, ctor, &vals)
+            });
+        } }
+    }
+}
+
+/// like uv_check, but samples the index set (RLE reads are O(runs))
+fn uv_check_sampled(c: &mut Case, uv: &UintVector, vals: &[u32], what: &str, all: bool) -> Res {
+    let n = vals.len();
+    ensure!(uv.len() == n, "len", "{what}: len()={} want {n}", uv.len());
+    let idx: Vec<usize> = if all { (0..n).collect() } else { let mut v: Vec<usize> = (0..2000.min(n)).chain(n.saturating_sub(2000)..n).collect(); for b in [65534usize, 65535, 65536, 65537, 131071, 131072, 131073] { if b < n { v.push(b); } } for _ in 0..6000 { v.push(c.rng.usize_below(n)); } v.sort(); v.dedup(); v };
+    let mut cur = 0usize;
+    let res = catch(|| { for &i in &idx { cur = i; let g = uv.get(i); if g != Some(vals[i]) { return Err(g); } } Ok(()) });
+    match res { Ok(Ok(())) => {}
+        Ok(Err(g)) => return Err(bad(if g.is_none() { "get_none_in_range" } else { "value_mismatch" }, format!("{what} n={n}: get({cur})={g:?} want {}", vals[cur]))),
+        Err(p) => return Err(bad("get_panic", format!("{what} n={n}: get({cur}) panicked at {}: {}", p.loc, p.msg))) }
+    c.ev(idx.len() as u64);
+    for k in [n, n + 1, n + 65536, usize::MAX] { let g = catch(|| uv.get(k)).map_err(|p| bad("oob_panic", format!("{what}: get({k}) len {n}: {} {}", p.loc, p.msg)))?; ensure!(g.is_none(), "oob_value", "{what}: get({k}) with len {n} returned {g:?}"); }
+    Ok(())
+}
+const HUGE_UV: &[&str] = &["huge_long_run", "huge_dominant", "huge_const", "huge_range_exact", "huge_two_halves", "huge_few_runs"];
+fn gen_huge_u32(r: &mut Rng, fam: usize, n: usize) -> Vec<u32> {
+    match fam {
+        0 => { // one run longer than 65535 (a 16-bit run counter would wrap), framed by short runs
+            let long = if n >= 65600 { 65536 + r.usize_below(n - 65536 + 1).min(n / 4) } else { n - r.usize_below(8) }; let lead = r.usize_below(n - long + 1); let x = r.next() as u32; let mut v = Vec::with_capacity(n);
+            while v.len() < lead { let y = r.next() as u32; let k = 1 + r.usize_below(300); for _ in 0..k { if v.len() < lead { v.push(y); } } }
+            for _ in 0..long { v.push(x); }
+            while v.len() < n { let y = r.next() as u32; let k = 1 + r.usize_below(300); for _ in 0..k { if v.len() < n { v.push(y); } } } v }
+        1 => { let d = r.next() as u32; let pct = 60 + r.below(40); let m = if r.bool() { u32::MAX } else { 0xffff }; (0..n).map(|_| if r.below(100) < pct { d } else { r.next() as u32 & m }).collect() }
+        2 => { let c = *r.pick(&[0u32, 1, u32::MAX, 0x8000_0000, 0xdead_beef]); vec![c; n] }
+        3 => { let k = *r.pick(&[1u32, 7, 8, 15, 16, 17, 24, 25, 31]); let span = if r.bool() { (1u32 << k) - 1 } else { 1u32 << k }; let min = if r.bool() { 0 } else { r.below((u32::MAX - span) as u64 + 1) as u32 };
+            let mut v: Vec<u32> = (0..n).map(|_| min + r.below(span as u64 + 1) as u32).collect(); v[n - 2] = min; v[n - 1] = min + span; v }
+        5 => { // at most 8 runs, one of them longer than 65535 (RLE stays cheap to read: incremental push re-reads every element per recompression)
+            let k = 1 + r.usize_below(7); let mut cuts: Vec<usize> = (0..k).map(|_| r.usize_below(n)).collect(); cuts.push(0); cuts.push(n); cuts.sort(); cuts.dedup();
+            let (mut bi, mut bl) = (0, 0); for i in 0..cuts.len() - 1 { if cuts[i + 1] - cuts[i] > bl { bl = cuts[i + 1] - cuts[i]; bi = i; } }
+            if bl <= 65535 && n > 65536 { cuts = vec![0, n - 65536 - r.usize_below(n - 65536), n]; cuts.dedup(); let _ = bi; }
+            let mut v = Vec::with_capacity(n); for i in 0..cuts.len() - 1 { let x = r.next() as u32 >> r.below(32); for _ in cuts[i]..cuts[i + 1] { v.push(x); } } v }
+        _ => { // X c X d: two identical halves of >= 32 Ki elements followed by differing elements
+            let h = (n - 2) / 2; let m = if r.bool() { 0xff } else { u32::MAX }; let x: Vec<u32> = (0..h).map(|_| r.next() as u32 & m).collect(); let mut v = x.clone(); v.push(1); v.extend_from_slice(&x); while v.len() < n { v.push(2); } v }
+    }
+}
+fn run_huge_uintvector(ctx: &mut Ctx) {
+    for fam in 0..5 { for idx in 0..ctx.n(4, 30) as u64 {
+        ctx.case("uintvector/build_from", HUGE_UV[fam], idx, |c| {
+            let n = huge_len(&mut c.rng, 8); let vals = gen_huge_u32(&mut c.rng, fam, n);
+            c.input_str("kind", HUGE_UV[fam]); c.input("vals_u32_le", &vals.iter().flat_map(|x| x.to_le_bytes()).collect::<Vec<u8>>()); c.note("huge_elems", n as u64);
+            let uv = match catch(|| UintVector::build_from(&vals)) { Ok(Ok(v)) => v, Ok(Err(_)) => { c.note("ctor_err", 1); return Ok(()); }, Err(p) => return Err(bad(&p.class(), format!("build_from n={n} panicked at {}: {}", p.loc, p.msg))) };
+            c.set_nontrivial(true);
+            let (sname, sbytes) = uv_predict(&vals); let (_, comp, _) = uv.stats();
+            if comp == sbytes { c.note(&format!("strat:{sname}"), 1); } else { c.note(&format!("strat_unconfirmed:{sname}"), 1); }
+            let runs = 1 + vals.windows(2).filter(|p| p[0] != p[1]).count();
+            uv_check_sampled(c, &uv, &vals, "build_from", sname != "rle" || runs < 400)
+        });
+    } }
+    for fam in [5usize, 3, 4] { for idx in 0..ctx.n(2, 12) as u64 { // families on which RLE is either not selected or has < 10 runs: every 64th push re-reads all elements, and an RLE read is O(runs)
+        ctx.case("uintvector/push", HUGE_UV[fam], idx, |c| { // grows through > 1000 recompressions past 65536 elements
+            let n = *c.rng.pick(&[65537usize, 65600, 66049, 70001]); let vals = gen_huge_u32(&mut c.rng, fam, n);
+            c.input_str("kind", HUGE_UV[fam]); c.input("vals_u32_le", &vals.iter().flat_map(|x| x.to_le_bytes()).collect::<Vec<u8>>()); c.note("huge_elems", n as u64);
+            let mut uv = if c.rng.bool() { UintVector::new() } else { UintVector::with_capacity(*c.rng.pick(&[65537usize, 131073])) };
+            let checkpoints = [65535usize, 65536, 65537, n];
+            for i in 0..n {
+                match catch(|| uv.push(vals[i])) { Ok(Ok(())) => {}, Ok(Err(e)) => return Err(bad("push_err", format!("push #{i} of {} failed: {e}", vals[i]))), Err(p) => return Err(bad(&p.class(), format!("push #{i} panicked at {}: {}", p.loc, p.msg))) }
+                if checkpoints.contains(&(i + 1)) { let runs = 1 + vals[..i + 1].windows(2).filter(|p| p[0] != p[1]).count(); uv_check_sampled(c, &uv, &vals[..i + 1], "push", runs < 400)?; c.note("checkpoints", 1); }
+            }
+            c.set_nontrivial(true); Ok(())
+        });
+    } }
+}
+
+fn run_huge_min0_zip(ctx: &mut Ctx) {
+    for idx in 0..ctx.n(8, 60) as u64 {
+        ctx.case("uvmin0/new_set", "huge_bits", idx, |c| {
+            let w = match c.rng.below(4) { 0 => *c.rng.pick(&[1u32, 7, 8, 9, 16, 17, 31, 32, 33, 57, 58]), _ => 1 + c.rng.below(58) as u32 };
+            let n = if w <= 16 { huge_len(&mut c.rng, 6) } else { *c.rng.pick(HUGE_LENS) }; let max_val = exact_bits(&mut c.rng, w);
+            c.input_str("w", &w.to_string()); c.input_str("n", &n.to_string()); c.input_str("max_val", &max_val.to_string()); c.note("huge_elems", n as u64);
+            let mut v = catch(|| UintVecMin0::new(n, max_val as usize)).map_err(|p| bad(&p.class(), format!("new({n},{max_val}) panicked at {}: {}", p.loc, p.msg)))?;
+            ensure!(v.uintbits() == w as usize, "width", "uintbits()={} want {w}", v.uintbits());
+            let m = mask_of(w); let mut shadow = vec![0u64; n]; let backwards = c.rng.bool();
+            for k in 0..n + n / 4 { let i = if k < n { if backwards { n - 1 - k } else { k } } else { c.rng.usize_below(n) }; let x = match c.rng.below(6) { 0 => 0, 1 => m, 2 => max_val, _ => c.rng.next() & m };
+                catch(|| v.set(i, x as usize)).map_err(|p| bad(&p.class(), format!("set({i},{x}) bits={w} panicked at {}: {}", p.loc, p.msg)))?; shadow[i] = x; }
+            c.set_nontrivial(true); min0_check(c, &v, &shadow, "new_set")
+        });
+        ctx.case("zipintvec/new_set", "huge_range", idx, |c| {
+            let w = 1 + c.rng.below(58) as u32; let n = *c.rng.pick(HUGE_LENS); let span = exact_bits(&mut c.rng, w); let m = mask_of(w);
+            let min = match c.rng.below(3) { 0 => 0, 1 => u64::MAX - m, _ => c.rng.below(u64::MAX - m) };
+            c.input_str("w", &w.to_string()); c.input_str("n", &n.to_string()); c.input_str("min", &min.to_string()); c.input_str("span", &span.to_string()); c.note("huge_elems", n as u64);
+            let mut z = catch(|| ZipIntVec::new(n, min as usize, (min + span) as usize)).map_err(|p| bad(&p.class(), format!("new({n},{min},{}) panicked at {}: {}", min + span, p.loc, p.msg)))?;
+            let mut shadow = vec![min; n];
+            for i in 0..n { let x = min + match c.rng.below(4) { 0 => 0, 1 => span, _ => c.rng.below(span + 1) }; catch(|| z.set(i, x as usize)).map_err(|p| bad(&p.class(), format!("set({i},{x}) panicked at {}: {}", p.loc, p.msg)))?; shadow[i] = x; }
+            c.set_nontrivial(true); zip_check(c, &z, &shadow, "new_set")
+        });
+    }
+    for idx in 0..ctx.n(5, 40) as u64 {
+        // grows by push_back past 65536 / 131072 elements while the width steps up (each step rebuilds the whole vector)
+        let grow = |c: &mut Case| -> Vec<u64> { let n = *c.rng.pick(&[65537usize, 100_001, 131073, 140_000]); let wmax = 1 + c.rng.below(58) as u32; let steps = 1 + c.rng.below(8) as usize; c.note("huge_elems", n as u64);
+            (0..n).map(|i| { let w = (wmax as usize * (1 + i * steps / n) / steps) as u32; if i * steps % n < steps { exact_bits(&mut c.rng, w) } else { c.rng.next() & mask_of(w) } }).collect() };
+        ctx.case("uvmin0/push_back", "huge_grow", idx, |c| { let vals = grow(c); c.input("vals_u64_le", &le_bytes(&vals)); let n = vals.len();
+            let v = catch(|| { let mut v = UintVecMin0::new_empty(); for &x in &vals { v.push_back(x as usize); } v }).map_err(|p| bad(&p.class(), format!("push_back sequence n={n} panicked at {}: {}", p.loc, p.msg)))?;
+            c.set_nontrivial(true); c.note(&format!("bits:{}", v.uintbits()), 1); min0_check(c, &v, &vals, "push_back") });
+        ctx.case("zipintvec/push_back", "huge_grow", idx, |c| { let vals = grow(c); c.input("vals_u64_le", &le_bytes(&vals)); let n = vals.len();
+            let z = catch(|| { let mut z = ZipIntVec::new_empty(); for &x in &vals { z.push_back(x as usize); } z }).map_err(|p| bad(&p.class(), format!("push_back sequence n={n} panicked at {}: {}", p.loc, p.msg)))?;
+            c.set_nontrivial(true); c.note(&format!("bits:{}", z.uintbits()), 1); zip_check(c, &z, &vals, "push_back") });
+    }
+    for fam in [1usize, 3] { for idx in 0..ctx.n(3, 24) as u64 {
+        // bulk builders on > 65536 elements: dominant value / exact power-of-two range, with an optional large base
+        ctx.case("uvmin0/build_u32", HUGE_UV[fam], idx, |c| { let n = *c.rng.pick(HUGE_LENS); let vals = gen_huge_u32(&mut c.rng, fam, n); c.input("vals_u32_le", &vals.iter().flat_map(|x| x.to_le_bytes()).collect::<Vec<u8>>()); c.note("huge_elems", n as u64);
+            let mn = *vals.iter().min().unwrap(); let (v, m) = catch(|| UintVecMin0::build_from_u32(&vals)).map_err(|p| bad(&p.class(), format!("build_from_u32 n={n} panicked at {}: {}", p.loc, p.msg)))?;
+            ensure!(m == mn, "min", "returned min {m} want {mn}"); c.set_nontrivial(true); let want: Vec<u64> = vals.iter().map(|&x| (x - mn) as u64).collect(); min0_check(c, &v, &want, "build_from_u32") });
+        ctx.case("uvmin0/build_i32", HUGE_UV[fam], idx, |c| { let n = *c.rng.pick(HUGE_LENS); let vals: Vec<i32> = gen_huge_u32(&mut c.rng, fam, n).iter().map(|&x| x as i32).collect(); c.input("vals_i32_le", &vals.iter().flat_map(|x| x.to_le_bytes()).collect::<Vec<u8>>()); c.note("huge_elems", n as u64);
+            let (mn, mx) = (*vals.iter().min().unwrap(), *vals.iter().max().unwrap()); if (mx as i64 - mn as i64) > i32::MAX as i64 { c.tag("i32_range_exceeds_i32_max"); }
+            let (v, m) = catch(|| UintVecMin0::build_from_i32(&vals)).map_err(|p| bad(&p.class(), format!("build_from_i32 n={n} min={mn} max={mx} panicked at {}: {}", p.loc, p.msg)))?;
+            ensure!(m == mn, "min", "returned min {m} want {mn}"); c.set_nontrivial(true); let want: Vec<u64> = vals.iter().map(|&x| (x as i64 - mn as i64) as u64).collect(); min0_check(c, &v, &want, "build_from_i32") });
+        ctx.case("zipintvec/build_u32", HUGE_UV[fam], idx, |c| { let n = *c.rng.pick(HUGE_LENS); let vals = gen_huge_u32(&mut c.rng, fam, n); c.input("vals_u32_le", &vals.iter().flat_map(|x| x.to_le_bytes()).collect::<Vec<u8>>()); c.note("huge_elems", n as u64);
+            let z = catch(|| ZipIntVec::build_from_u32(&vals)).map_err(|p| bad(&p.class(), format!("build_from_u32 n={n} panicked at {}: {}", p.loc, p.msg)))?;
+            c.set_nontrivial(true); let want: Vec<u64> = vals.iter().map(|&x| x as u64).collect(); zip_check(c, &z, &want, "build_from_u32") });
+        for (t, is_zip) in [("uvmin0/build_usize", false), ("zipintvec/build_usize", true)] { ctx.case(t, HUGE_UV[fam], idx, |c| {
+            let n = *c.rng.pick(HUGE_LENS); let base = match c.rng.below(3) { 0 => 0u64, 1 => u64::MAX - u32::MAX as u64, _ => c.rng.next() >> 1 }; c.input_str("base", &base.to_string()); c.note("huge_elems", n as u64);
+            let vals: Vec<u64> = gen_huge_u32(&mut c.rng, fam, n).iter().map(|&x| base + x as u64).collect(); c.input("vals_u64_le", &le_bytes(&vals)); let us: Vec<usize> = vals.iter().map(|&x| x as usize).collect(); let mn = *vals.iter().min().unwrap();
+            c.set_nontrivial(true);
+            if is_zip { if mn.checked_add(mask_of(ubits(*vals.iter().max().unwrap() - mn).max(1) as u32)).is_none() { c.tag("min_plus_mask_overflows"); }
+                let z = catch(|| ZipIntVec::build_from_usize(&us)).map_err(|p| bad(&p.class(), format!("build_from_usize n={n} panicked at {}: {}", p.loc, p.msg)))?; zip_check(c, &z, &vals, "build_from_usize") }
+            else { let (v, m) = catch(|| UintVecMin0::build_from_usize(&us)).map_err(|p| bad(&p.class(), format!("build_from_usize n={n} panicked at {}: {}", p.loc, p.msg)))?;
+                ensure!(m as u64 == mn, "min", "returned min {m} want {mn}"); let want: Vec<u64> = vals.iter().map(|&x| x - mn).collect(); min0_check(c, &v, &want, "build_from_usize") } }); }
+    } }
+}
+
+const HUGE_SUV: &[&str] = &["huge_delta_at_limit", "huge_delta_over_limit_tail", "huge_dense", "huge_base_at_sample_limit"];
+/// sorted, > 65536 elements, n % block_size != 0
+fn gen_huge_suv(r: &mut Rng, cfg: &SortedUintVecConfig, fam: usize, n: usize) -> Vec<u64> {
+    let bs = 1usize << cfg.log2_block_units; let om = mask_of(cfg.offset_width as u32) as u128; let sm = mask_of(cfg.sample_width as u32) as u128; let nb = (n + bs - 1) / bs; let tail0 = (nb - 1) * bs;
+    let mut v: Vec<u128> = Vec::with_capacity(n); let mut base: u128 = r.below(1000) as u128;
+    // per-block step budget so that the whole sequence stays below 2^sample_width where the family wants it to
+    let per_block: u128 = (sm.min(u64::MAX as u128) / 2) / nb as u128; let off_cap: u128 = om.min((per_block / 2).max(1));
+    let step_cap: u128 = if fam == 3 { 0 } else { (per_block / 2).min(4 * (om + 1)) };
+    for b in 0..nb { let cnt = bs.min(n - b * bs);
+        let mut offs: Vec<u128> = match fam { 2 => { let mut cur = 0u128; (0..cnt).map(|_| { cur = (cur + r.below(2) as u128).min(off_cap); cur }).collect() }
+            _ => { let lim = if r.chance(1, 4) { off_cap as u64 } else { r.below(off_cap as u64 + 1) }; let mut o: Vec<u128> = (0..cnt).map(|_| r.below(lim + 1) as u128).collect(); o.sort(); o[0] = 0; o } };
+        // deltas exactly at 2^offset_width - 1: in every 97th block and always in the trailing partial block
+        if (fam == 0 || fam == 1) && cnt > 1 && (b % 97 == 0 || b == nb - 1) { offs[cnt - 1] = om; }
+        for &o in &offs { v.push(base + o); }
+        let last = base + offs[cnt - 1]; base = last + if step_cap == 0 { 0 } else { r.below((step_cap.min(u64::MAX as u128) as u64).max(1)) as u128 };
+    }
+    if fam == 1 { let cnt = n - tail0; let at = if cnt > 1 { tail0 + 1 + r.usize_below(cnt - 1) } else { n - 1 }; // one delta of exactly 2^offset_width (or a little more) in the trailing partial block: must be refused
+        if cnt > 1 { let need = (om + 1 + if r.bool() { 0 } else { r.below(3) as u128 }).saturating_sub(v[at] - v[tail0]); for x in v[at..].iter_mut() { *x += need; } } }
+    if fam == 3 && cfg.sample_width < 64 { // trailing block's base exactly at 2^sample_width - 1 (fits) or 2^sample_width (does not): shift the whole sequence
+        let target = if r.bool() { sm } else { sm + 1 }; let cur = v[tail0]; if target >= cur { let d = target - cur; for x in v.iter_mut() { *x += d; } } else { let d = (cur - target).min(v[0]); for x in v.iter_mut() { *x -= d; } } }
+    let over = v.last().map_or(0, |&x| x.saturating_sub(u64::MAX as u128)).min(v[0]);
+    v.iter().map(|&x| (x - over).min(u64::MAX as u128) as u64).collect()
+}
+fn run_huge_suv(ctx: &mut Ctx) {
+    let targets: [(&str, Option<SortedUintVecConfig>); 5] = [("suv/default", Some(SortedUintVecConfig::default())), ("suv/performance", Some(SortedUintVecConfig::performance_optimized())), ("suv/memory", Some(SortedUintVecConfig::memory_optimized())), ("suv/log2_4", None), ("suv/log2_8", None)];
+    for fam in 0..HUGE_SUV.len() { for idx in 0..ctx.n(3, 20) as u64 { for (t, preset) in targets.iter() {
+        ctx.case(t, HUGE_SUV[fam], idx, |c| {
+            let cfg = preset.unwrap_or_else(|| SortedUintVecConfig { log2_block_units: if *t == "suv/log2_4" { 4 } else { 8 }, offset_width: *c.rng.pick(&[8u8, 9, 15, 16, 17, 31, 32]), sample_width: *c.rng.pick(&[16u8, 17, 32, 33, 57, 59, 63, 64]), use_simd: c.rng.bool() });
+            let bs = 1usize << cfg.log2_block_units; let n0 = huge_len(&mut c.rng, 10); let mut n = not_multiple(&mut c.rng, n0, bs); if n % bs == 1 { n += 1 + c.rng.usize_below(bs - 2); } // trailing partial block of at least two elements
+            let vals = gen_huge_suv(&mut c.rng, &cfg, fam, n); c.note("huge_elems", n as u64);
+            suv_check(c, cfg, HUGE_SUV[fam], &vals) });
+    } } }
+}
+
 pub fn run(ctx: &mut Ctx) {
     run_intvec::<u8>(ctx, "u8", 8); run_intvec::<u16>(ctx, "u16", 16); run_intvec::<u32>(ctx, "u32", 32); run_intvec::<u64>(ctx, "u64", 64);
     run_intvec::<i8>(ctx, "i8", 8); run_intvec::<i16>(ctx, "i16", 16); run_intvec::<i32>(ctx, "i32", 32); run_intvec::<i64>(ctx, "i64", 64);
@@ -601,4 +841,10 @@ pub fn run(ctx: &mut Ctx) {
     run_suv(ctx);
     run_oob_extreme(ctx);
     run_witnesses(ctx);
+    // large-input families (appended after the existing cases so that their sequence numbers stay what they were)
+    run_huge_intvec::<u8>(ctx, "u8", 8); run_huge_intvec::<u16>(ctx, "u16", 16); run_huge_intvec::<u32>(ctx, "u32", 32); run_huge_intvec::<u64>(ctx, "u64", 64);
+    run_huge_intvec::<i8>(ctx, "i8", 8); run_huge_intvec::<i16>(ctx, "i16", 16); run_huge_intvec::<i32>(ctx, "i32", 32); run_huge_intvec::<i64>(ctx, "i64", 64);
+    run_huge_uintvector(ctx);
+    run_huge_min0_zip(ctx);
+    run_huge_suv(ctx);
 }
